@@ -271,6 +271,13 @@ fn simulate(c: &ReadCase) -> (Vec<(Vec<u8>, Vec<u8>)>, Vec<(Vec<u8>, Vec<u8>)>) 
         1 => f2.insert(0, (b"ACGT".to_vec(), vec![b'I'; 4])),
         _ => {}
     }
+    // a read trimmed to nothing (adapter dimers leave zero-length records unless the trimmer enforces a minimum
+    // length) in the middle of a file: it holds no k-mer, and everything behind it still counts
+    match c.read_seed % 7 {
+        3 if f1.len() >= 3 => f1.insert(f1.len() / 3, (Vec::new(), Vec::new())),
+        4 if f2.len() >= 3 => f2.insert(f2.len() / 2, (Vec::new(), Vec::new())),
+        _ => {}
+    }
     (f1, f2)
 }
 
